@@ -512,6 +512,8 @@ fn eval_dependencies(
     state: &mut State,
 ) -> Result<BTreeSet<u64>> {
     let mut bucket: Vec<_> = dependencies.iter().collect();
+    #[cfg(feature = "verif")]
+    crate::verif::permute_bucket(&mut bucket);
     let mut last_size = bucket.len();
     let mut not_evaluated = Vec::new();
     let mut used_ids = BTreeSet::new();
